@@ -8,8 +8,11 @@
     Hypotheses, all visible in the statements:
     - [params_ok P]: asset limits are not negative (types/params.go validates this);
     - [escrow_empty b]: the module account holds nothing at genesis;
-    - [wf_op]: the signer of a create message is not a module account (module accounts cannot sign), and
-      the history contains no parameter change ([SetParams]; see Props/C04.v for what survives one).
+    - [wf_run s ops] = [wf_op] of every operation IN THE STATE in which it is executed: the signer of a
+      create message is not a module account (module accounts cannot sign); every ACCEPTED parameter
+      change ([SetParams], MsgUpdateParams by the authority with a valid set) is compatible with the
+      current usage ([compat_b], Model.v: denoms kept, new limits >= current + incoming, ...).  Rejected
+      parameter changes are unrestricted.  What survives an incompatible change: Props/C04.v.
       (A recipient equal to a blocked module account or - since "fix: htlc CreateHTLC rejects a
       recipient equal to the htlc module account" - to the htlc account itself is refused by the code,
       and by the model; no hypothesis on recipients is needed any more.)
@@ -17,13 +20,13 @@
     pre-image (hash lock, sender, recipient, amount); the harness checks the real SHA-256 values.
 
     Every statement is closed by [exact] of a lemma of [Htlc/Proofs.v]. *)
-From Irismod Require Import Htlc.Model Htlc.Proofs Htlc.Examples Htlc.Check Htlc.Sound Htlc.Passes Htlc.PassesEx.
+From Irismod Require Import Htlc.Model Htlc.Proofs Htlc.Examples Htlc.Check Htlc.Sound Htlc.Passes Htlc.PassesEx Htlc.ParamChange Htlc.CoreHist.
 
 (** ** Reachable states satisfy the invariant (induction over the history) *)
 Theorem reachable_invariant :
   forall (P : list aparam) (b : ledger) (t0 : Z) (ops : list op),
-    params_ok P -> escrow_empty b -> Forall wf_op ops ->
-    Inv (reachable P b t0 ops) /\ Strict (reachable P b t0 ops) /\ st_params (reachable P b t0 ops) = P.
+    params_ok P -> escrow_empty b -> wf_run (init P b t0) ops ->
+    Inv (reachable P b t0 ops) /\ Strict (reachable P b t0 ops).
 Proof. exact reach_inv. Qed.
 Print Assumptions reachable_invariant.
 
@@ -33,8 +36,8 @@ Proof. exact init_inv. Qed.
 Print Assumptions invariant_initial.
 
 Theorem invariant_step :
-  forall s o, Inv s -> Strict s -> wf_op o ->
-    Inv (step s o) /\ Strict (step s o) /\ st_params (step s o) = st_params s.
+  forall s o, Inv s -> Strict s -> wf_op s o ->
+    Inv (step s o) /\ Strict (step s o) /\ st_params (step s o) = params_after s o.
 Proof. exact step_inv. Qed.
 Print Assumptions invariant_step.
 
@@ -44,7 +47,7 @@ Print Assumptions invariant_step.
     closing height). *)
 Theorem state_machine :
   forall P b t0 (pre post : list op) (id : cid) (c : contract),
-    params_ok P -> escrow_empty b -> Forall wf_op (pre ++ post) ->
+    params_ok P -> escrow_empty b -> wf_run (init P b t0) (pre ++ post) ->
     get id (st_contracts (reachable P b t0 pre)) = Some c ->
     exists c', get id (st_contracts (reachable P b t0 (pre ++ post))) = Some c'
       /\ (c' = c \/ (c_state c = Open /\ exists st h, st <> Open /\ c' = close c st h)).
@@ -54,7 +57,7 @@ Print Assumptions state_machine.
 (** ... and a contract comes into existence only by a create message, open, with a future
     expiration height. *)
 Theorem created_open :
-  forall s o id c, Inv s -> Strict s -> wf_op o ->
+  forall s o id c, Inv s -> Strict s -> wf_op s o ->
     get id (st_contracts s) = None -> get id (st_contracts (step s o)) = Some c ->
     c_state c = Open /\ c_closed c = 0 /\ st_height s < c_exp c /\ exists m, o = Create m /\ id = id_of m.
 Proof. exact created_open_lemma. Qed.
@@ -96,10 +99,10 @@ Print Assumptions refund_at_expiry.
 
 (** hence in every reachable state no open contract has reached its expiration height *)
 Theorem no_open_contract_at_expiry :
-  forall P b t0 ops id c, params_ok P -> escrow_empty b -> Forall wf_op ops ->
+  forall P b t0 ops id c, params_ok P -> escrow_empty b -> wf_run (init P b t0) ops ->
     get id (st_contracts (reachable P b t0 ops)) = Some c -> c_state c = Open ->
     st_height (reachable P b t0 ops) < c_exp c.
-Proof. intros P b t0 ops id c HP HE W. exact (proj1 (proj2 (reach_inv P b t0 ops HP HE W)) id c). Qed.
+Proof. intros P b t0 ops id c HP HE W. exact (proj2 (reach_inv P b t0 ops HP HE W) id c). Qed.
 Print Assumptions no_open_contract_at_expiry.
 
 (** ** rejections_move_nothing: a rejected message leaves the whole state unchanged; a creation
@@ -173,14 +176,36 @@ Theorem no_contract_no_movement :
 Proof. exact no_contract_no_events_lemma. Qed.
 Print Assumptions no_contract_no_movement.
 
+(** ... the same, stated over histories (which may contain compatible parameter changes) *)
+Theorem leaves_escrow_once_reachable :
+  forall P b t0 ops id c, params_ok P -> escrow_empty b -> wf_run (init P b t0) ops ->
+    get id (st_contracts (reachable P b t0 ops)) = Some c -> locksb c = true ->
+    n_escrow_out id (st_log (reachable P b t0 ops)) = if openb c then 0%nat else 1%nat.
+Proof. intros P b t0 ops id c HP HE W. exact (leaves_escrow_once_lemma _ id c (proj1 (reach_inv P b t0 ops HP HE W))). Qed.
+Print Assumptions leaves_escrow_once_reachable.
+
+(** ... and along EVERY history whose accepted parameter changes keep the denoms, compatible with the usage
+    or not ([wf_core_run], Htlc/CoreHist.v): funds still leave escrow exactly once, and no open contract
+    reaches its expiration height (what is lost after an incompatible change is only that a claim with the
+    right secret must succeed: Props/C04.v [claim_may_fail_after_limit_cut]) *)
+Theorem leaves_escrow_once_every_history :
+  forall P b t0 ops id c, params_ok P -> escrow_empty b -> wf_core_run (init P b t0) ops ->
+    get id (st_contracts (reachable P b t0 ops)) = Some c ->
+    (locksb c = true -> n_escrow_out id (st_log (reachable P b t0 ops)) = if openb c then 0%nat else 1%nat)
+    /\ (c_state c = Open -> st_height (reachable P b t0 ops) < c_exp c).
+Proof.
+  intros P b t0 ops id c HP HE W Hg. destruct (core_reachable_lemma P b t0 ops HP HE W) as [C S].
+  split; [exact (leaves_escrow_once_core _ id c C Hg)|exact (S id c Hg)].
+Qed.
+Print Assumptions leaves_escrow_once_every_history.
+
 (** ** What the check evaluates lies inside these theorems: for every case accepted by the decidable
     guard [hyps_b] (evaluated by [vm_compute] on every case; a case outside it fails the check), the
     model state the implementation's observations are compared with after ANY number [n] of steps
     satisfies the invariant, hence all of the above. *)
 Theorem c03_checked_states_satisfy_invariant :
   forall (k : case) (n : nat), hyps_b k = true ->
-    Inv (case_state k n) /\ Strict (case_state k n) /\ Inv_C04 (case_state k n)
-    /\ st_params (case_state k n) = k_params k.
+    Inv (case_state k n) /\ Strict (case_state k n) /\ Inv_C04 (case_state k n).
 Proof. exact checked_states_satisfy_invariant. Qed.
 Print Assumptions c03_checked_states_satisfy_invariant.
 
@@ -204,18 +229,18 @@ Print Assumptions c03_model_passes_check.
 (** its hypotheses hold of a concrete case built from the model's run of the example history *)
 Example c03_model_passes_check_nonvacuous :
   hyps_b exCase = true /\ table_ok exCase /\ Vw exCase 5 (case_init exCase) 0 (k_obs0 exCase)
-  /\ trace_ok exCase 5 (case_init exCase) (k_obs0 exCase) (k_steps exCase) /\ length (k_steps exCase) = 13%nat.
+  /\ trace_ok exCase 5 (case_init exCase) (k_obs0 exCase) (k_steps exCase) /\ length (k_steps exCase) = 16%nat.
 Proof. split; [exact exCase_hyps|]. split; [exact exCase_table|]. split; [exact exCase_init_view|]. split; [exact exCase_trace|reflexivity]. Qed.
 
 (** ** Non-vacuity: the hypotheses hold of a concrete history ([Htlc/Examples.v]) that walks all
     three kinds of contract through claim, refund, duplicate, wrong secret, second claim, claim in
     the last block before expiry and claim after refund. *)
-Example c03_hypotheses_satisfiable : params_ok exP /\ escrow_empty exB /\ Forall wf_op exOps.
+Example c03_hypotheses_satisfiable : params_ok exP /\ escrow_empty exB /\ wf_run (init exP exB (ts0 * ns)) exOps.
 Proof.
   split; [|split].
   - repeat constructor; simpl; lia.
   - intros d. reflexivity.
-  - repeat constructor; simpl; discriminate.
+  - apply wf_run_b_sound. vm_compute. reflexivity.
 Qed.
 
 Example c03_history_outcomes :
